@@ -122,8 +122,38 @@ let handle toks =
           texts := (Printf.sprintf "0:0:%s:%s" (zs w.pw_num_nulls)
                       (match mn, mx with Some a, Some b -> hex_or_e a ^ ":" ^ hex_or_e b | _ -> "-:-")) :: !texts;
           add_page acc w.pw_num_nulls mn mx (!nonnull = 0)) [] (split ';' pages) in
+      let ptxt = if !texts = [] then "-" else String.concat ";" (List.rev !texts) in
+      if idx = "all" then begin
+        let n = List.length pgs in
+        let b = Buffer.create n in
+        for i = 0 to n - 1 do
+          Buffer.add_char b (match page_might_match t pgs (z_of_int i) (qbound qmin) (qbound qmax) with
+              | SOk (st, m) -> if int_of_z st <> 0 then 'E' else if m then '1' else '0'
+              | _ -> 'F')
+        done;
+        Printf.sprintf "OK pages=%s m=%s" ptxt (Buffer.contents b)
+      end else
       (match page_might_match t pgs (zi idx) (qbound qmin) (qbound qmax) with
-       | SOk (st, m) -> Printf.sprintf "OK pages=%s m=%s:%d" (if !texts = [] then "-" else String.concat ";" (List.rev !texts)) (zs st) (if m then 1 else 0)
+       | SOk (st, m) -> Printf.sprintf "OK pages=%s m=%s:%d" ptxt (zs st) (if m then 1 else 0)
        | SErr c -> "ERR " ^ zs c | SFault f -> "FAULT " ^ fault_name f)
+  | ["pmh"; ty; pages; queries] ->
+      let t = ptype_of ty in
+      let pgs = List.fold_left (fun acc pg ->
+          match String.split_on_char '/' pg with
+          | [nc; mn; mx; np; _d] -> add_page acc (zi nc) (opt_bytes mn) (opt_bytes mx) (np = "1")
+          | _ -> failwith "bad page") [] (split ';' pages) in
+      let n = List.length pgs in
+      let one q =
+        match String.split_on_char '/' q with
+        | [a; b] ->
+            let buf = Buffer.create n in
+            for i = 0 to n - 1 do
+              Buffer.add_char buf (match page_might_match t pgs (z_of_int i) (qbound a) (qbound b) with
+                  | SOk (st, m) -> if int_of_z st <> 0 then 'E' else if m then '1' else '0'
+                  | _ -> 'F')
+            done;
+            Buffer.contents buf
+        | _ -> failwith "bad query" in
+      Printf.sprintf "OK n=%d addbad=0 m=%s" n (String.concat "|" (List.map one (split ';' queries)))
   | _ -> "RUNNER-ERROR unknown-op"
 let () = main_loop handle
